@@ -522,15 +522,27 @@ class PDE(SDEBase):
             if isinstance(value, DataFieldBase)
         )
         cached_buffers = cache.get("consts_buffers", None)
+        # compiling backends bake a copy of the constants' data into the compiled
+        # functions, so these also need to be prepared again when the data changed
+        cached_values = cache.get("consts_values", None)
         if (
             state.attributes == cache.get("state_attributes", None)
             and cached_buffers is not None
             and len(cached_buffers) == len(consts_buffers)
             and all(a is b for a, b in zip(cached_buffers, consts_buffers))
+            and (
+                cached_values is None
+                or all(
+                    np.array_equal(a, b, equal_nan=True)
+                    for a, b in zip(cached_values, consts_buffers)
+                )
+            )
         ):
             return cache  # this cache was already prepared
         cache = self._cache[backend.name] = {}  # clear cache, if there was any
         cache["consts_buffers"] = consts_buffers
+        if backend.implementation != "numpy":
+            cache["consts_values"] = tuple(buf.copy() for buf in consts_buffers)
 
         # determine the dtype of the rhs
         if not np.iscomplexobj(state.data) and self.complex_valued:
